@@ -1,6 +1,7 @@
 import RSVerif.Lemmas.Slot
 import RSVerif.Lemmas.SlotWitness
 import RSVerif.Lemmas.SlotLatWitness
+import RSVerif.Properties.C06Models
 /-
 C15 — Key-to-slot mapping follows the Redis Cluster specification; the checkpoint key chosen for a
 shard hashes inside the shard's slot range and is excluded by the key filter.
@@ -182,6 +183,17 @@ theorem chosen_filtered_in_range (black white : List Bytes) (l r : Int) (h0 : 0 
     filterKey black white (choseSlotInRange Generated.C15.checkpointKey l r) = true :=
   chosen_filtered black white l r (chosen_in_range l r h0 hlr hr).1
 
+/-- … and by every model of `FilterKey` the other properties use (full/incremental sync paths of C06, command rewriting of C13,
+    rump of C16): the checkpoint key of a shard is never synchronised, filtered or copied as user data on any path
+    (`chosen_filtered_in_range` carried across `C06.filterKey_models_agree_*`). -/
+theorem chosen_filtered_all_paths (l r : Int) (h0 : 0 ≤ l) (hlr : l ≤ r) (hr : r ≤ 16383)
+    (fcfg : Spec.Filter.Cfg) (kc : KeyFilter.Config) (rc : Rump.Config) :
+    Filter.filterKey fcfg (choseSlotInRange Generated.C15.checkpointKey l r) = true ∧
+    KeyFilter.filterKey kc (choseSlotInRange Generated.C15.checkpointKey l r) = true ∧
+    Rump.filterKey rc (choseSlotInRange Generated.C15.checkpointKey l r) = true := by
+  rw [C06.filterKey_models_agree_slot, C06.filterKey_models_agree_keyfilter, C06.filterKey_models_agree_rump]
+  exact ⟨chosen_filtered_in_range _ _ l r h0 hlr hr, chosen_filtered_in_range _ _ l r h0 hlr hr,
+    chosen_filtered_in_range _ _ l r h0 hlr hr⟩
 
 /-! ### 7. The latency monitor's key search uses the same slot function -/
 
